@@ -25,13 +25,17 @@ type Case struct {
 	Events []et.Event `json:"events"`
 	Pauses []int      `json:"pauses"`
 	// processing time: gaps (µs) between emits
-	GapsUs   []int  `json:"gaps_us,omitempty"`
-	HookSeed uint64 `json:"hook_seed,omitempty"` // seed of the engine's build-tag-guarded perturbation points (0 = off)
+	GapsUs    []int  `json:"gaps_us,omitempty"`
+	HookSeed  uint64 `json:"hook_seed,omitempty"`  // seed of the engine's build-tag-guarded perturbation points (0 = off)
+	LongBurst bool   `json:"long_burst,omitempty"` // 120-600 strictly increasing rows fed back to back, then silence
 }
 
 func genCase(t *rapid.T) Case {
 	if rapid.IntRange(0, 99).Draw(t, "mode") < procPercent {
 		return genProc(t)
+	}
+	if x := rapid.IntRange(0, 39).Draw(t, "long"); x == 17 || x == 29 {
+		return genLongBurst(t)
 	}
 	c := Case{Mode: "event"}
 	c.Unit = rapid.SampledFrom([]string{"ms", "ms", "ms", "ss", "ss", "ns", "mi"}).Draw(t, "unit")
@@ -62,6 +66,30 @@ func genCase(t *rapid.T) Case {
 	for range c.Events {
 		c.Pauses = append(c.Pauses, gen.Pause().Draw(t, "pause"))
 	}
+	return c
+}
+
+// genLongBurst: 120-600 rows with strictly increasing timestamps, most of them advancing into a new window, fed
+// back to back and followed by silence: more watermark advances than the engine's internal queues hold, and the last
+// one closes the tail windows.
+func genLongBurst(t *rapid.T) Case {
+	c := Case{Mode: "event", Unit: "ms", TsKind: "int64", LongBurst: true}
+	c.SizeMs = rapid.SampledFrom([]int64{100, 250, 1000}).Draw(t, "size")
+	c.OOOMs = rapid.SampledFrom([]int64{0, 0, c.SizeMs / 2}).Draw(t, "ooo")
+	c.Groups = rapid.IntRange(0, 2).Draw(t, "groups")
+	n := rapid.IntRange(120, 600).Draw(t, "n")
+	cur := et.Base + rapid.Int64Range(0, 3*c.SizeMs).Draw(t, "start")
+	stride := rapid.SampledFrom([]int64{c.SizeMs, c.SizeMs, c.SizeMs / 2, 2 * c.SizeMs, 1}).Draw(t, "stride")
+	for i := 0; i < n; i++ {
+		e := et.Event{ID: i, TS: cur, V: float64(i%7) / 4}
+		if c.Groups > 0 {
+			e.G = fmt.Sprintf("g%d", 1+i%c.Groups)
+		}
+		c.Events = append(c.Events, e)
+		cur += stride + int64(rapid.IntRange(0, 3).Draw(t, "d"))
+		c.Pauses = append(c.Pauses, 0)
+	}
+	c.HookSeed = hookSeed(t)
 	return c
 }
 
@@ -253,6 +281,9 @@ func runEvent(c Case) (res pbt.Result) {
 			cls["pre-first"] = true
 		}
 	}
+	if c.LongBurst {
+		cls["long-burst"] = true
+	}
 	for k := range cls {
 		res.Class(k)
 	}
@@ -287,7 +318,7 @@ func trim(c Case) any { return c }
 
 var spec = pbt.Spec[Case]{
 	ID:          "C01",
-	Rule:        "generated: event-time tumbling windows (size 100ms..90s, MAXOUTOFORDERNESS 0..2*size, 0-4 groups, TIMEUNIT ms/ss, ts as int/int64/float64), 1-40 events from a model clock (duplicate ts, boundary and boundary-1 ts, jumps up to 20 windows) pulled back by jitter in [0,2*OOO], producer pauses, final flush row; plus a share of processing-time cases run in real time. oracle: arrival/watermark model + per-row invariants (alignment, window_id, ids in own group and interval, count/sum over exactly those ids, no id twice, no interval twice, every not-late-on-arrival id exactly once in its interval, no early firing). non-trivial = >=2 intervals delivered and at least one of {late row, out-of-order row, boundary ts, duplicate ts, on-time row before the first window}; distinct by case hash",
+	Rule:        "generated: event-time tumbling windows (size 100ms..90s, MAXOUTOFORDERNESS 0..2*size, 0-4 groups, TIMEUNIT ms/ss, ts as int/int64/float64), 1-40 events from a model clock (duplicate ts, boundary and boundary-1 ts, jumps up to 20 windows) pulled back by jitter in [0,2*OOO], producer pauses, final flush row; 5% long bursts (120-600 strictly increasing rows fed back to back, most opening a new window, then silence); plus a share of processing-time cases run in real time. oracle: arrival/watermark model + per-row invariants (alignment, window_id, ids in own group and interval, count/sum over exactly those ids, no id twice, no interval twice, every not-late-on-arrival id exactly once in its interval, no early firing). non-trivial = >=2 intervals delivered and at least one of {late row, out-of-order row, boundary ts, duplicate ts, on-time row before the first window, long burst}; distinct by case hash",
 	Assumptions: []string{"input never dropped: WithOverflowStrategy(block,0)", "rows late on arrival may be counted or not (property leaves it open)", "a missing delivery after a 4 s wait on a ~150 µs path is a loss, not slowness", "processing-time cases use range oracles on wall-clock brackets"},
 	Gen:         genCase,
 	Run:         runCase,
